@@ -2164,6 +2164,18 @@ impl Ord for OwnedTerm {
                         bits: bbits,
                     },
                 ) => a.cmp(b).then_with(|| abits.cmp(bbits)),
+                (OwnedTerm::Binary(a), OwnedTerm::BitBinary { bytes: b, bits }) => {
+                    a.cmp(b).then_with(|| 8u8.cmp(bits))
+                }
+                (OwnedTerm::BitBinary { bytes: a, bits }, OwnedTerm::Binary(b)) => {
+                    a.cmp(b).then_with(|| bits.cmp(&8u8))
+                }
+                (OwnedTerm::String(a), OwnedTerm::BitBinary { bytes: b, bits }) => {
+                    a.as_bytes().cmp(b.as_slice()).then_with(|| 8u8.cmp(bits))
+                }
+                (OwnedTerm::BitBinary { bytes: a, bits }, OwnedTerm::String(b)) => {
+                    a.as_slice().cmp(b.as_bytes()).then_with(|| bits.cmp(&8u8))
+                }
                 _ => Ordering::Equal,
             },
             other => other,
